@@ -79,6 +79,15 @@ pub fn verif_lines_count(s: &str) -> (r: usize)
     ensures r == lines_of(s@).len()
 { s.lines().count() }
 
+/// `s.find(c)`: byte offset of the FIRST occurrence — its own uninterpreted function, so that code
+/// which calls `find` where the property needs the last newline does not verify by accident.
+pub uninterp spec fn find_char_spec(t: Seq<char>, c: char) -> Option<usize>;
+
+#[verifier::external_body]
+pub fn verif_find_char(s: &str, c: char) -> (r: Option<usize>)
+    ensures r == find_char_spec(s@, c)
+{ s.find(c) }
+
 /// `s.rfind(c)` for a `char` pattern (E13: `rfind` is Pattern-generic)
 #[verifier::external_body]
 pub fn verif_rfind_char(s: &str, c: char) -> (r: Option<usize>)
